@@ -105,7 +105,9 @@ class InternalAsyncioAdapter(InternalRunAdapter, SnapshottableAdapter):
         self._queues.publish_queue.put_nowait(event)
 
     async def get_now(self) -> float:
-        return time.monotonic()
+        # Seconds since the epoch, as InternalRunAdapter.get_now documents: the
+        # control loop subtracts these values from time.time() failure stamps.
+        return time.time()
 
     async def send_event(self, tick: WorkflowTick) -> None:
         self._queues.receive_queue.put_nowait(tick)
